@@ -391,12 +391,12 @@ def bounded_checks(ctx, nat, rng, quick, have_s, have_l):
     if have_s:
         for n in list(range(1, 41)) + [63, 64, 65, 127, 128, 129, 255, 256, 257, 300]:
             cases.append(("quasirandom_sobol", (n, int(rng.integers(1, 25)))))
-        for _ in range(10 if quick else 40):
+        for _ in range(10 if quick else 120):
             a = int(rng.integers(1, 200))
             cases.append(("quasirandom_sobol_batch", (a, a + int(rng.integers(0, 40)), int(rng.integers(1, 25)))))
         cases += [("quasirandom_sobol", (513, MAXD)), ("quasirandom_sobol_batch", (1, 1, 1)), ("quasirandom_sobol_batch", (2, 2, 3)), ("quasirandom_sobol_batch", (100, 130, 200))]
     if have_l:
-        for _ in range(20 if quick else 80):
+        for _ in range(20 if quick else 200):
             cases.append(("quasirandom_kgf", (int(rng.integers(0, 10 ** 6)), int(rng.integers(1, MAXD_KGF + 1)))))
             a = int(rng.integers(0, 10 ** 6))
             cases.append(("quasirandom_kgf_batch", (a, a + int(rng.integers(0, 257)), int(rng.integers(1, MAXD_KGF + 1)))))
@@ -425,18 +425,56 @@ def bounded_checks(ctx, nat, rng, quick, have_s, have_l):
         ctx.undecided("sampling.kernels/binding/source_matches_binary", f"the .pyx text and the compiled binary disagree on {fails[0]['input']}: proofs about the text do not transfer "
                       "to the binary that runs (rebuild the extension; Cython is not available here)", clause="extracted text and compiled kernel return identical arrays on the conformance domain")
 
+    # ---- (1b) the property's clauses evaluated on the extracted text itself (what a rebuilt binary would do), small inputs
+    fails, n_eval, distinct = [], 0, set()
+    if have_s:
+        for n in list(range(1, 97)) + [127, 128, 129, 200, 255, 256, 257]:
+            D = 40 if n <= 96 else 12
+            n_eval += 1
+            distinct.add(("sobol", n, D))
+            try:
+                X, ok = as_x(nat.src("quasirandom_sobol", n, D))
+                if not ok or not np.array_equal(X, nat.ref_block(n, n, D)[0]):
+                    fails.append({"input": {"call": f"<extracted> quasirandom_sobol({n}, {D})"}, "observed": "outside [0,1) or different from the Gray-code / Joe-Kuo reference point",
+                                  "clause": "single generator (extracted text) = reference point of that seed", "key": "src-single"})
+            except Exception as e:  # noqa
+                fails.append({"input": {"call": f"<extracted> quasirandom_sobol({n}, {D})"}, "observed": f"{type(e).__name__}: {e}", "clause": "defined behaviour", "key": "src-single"})
+            if len(fails) >= 3:
+                break
+    if have_l and len(fails) < 3:
+        for (a, b, D) in [(0, 40, 5), (7, 7, 1), (1000, 1100, 64), (999999, 1000030, 3), (1, 257, 2)]:
+            n_eval += 1
+            distinct.add(("kgf", a, b, D))
+            try:
+                blk = nat.src("quasirandom_kgf_batch", a, b, D)
+                bad = blk.shape != (b - a + 1, D) or not (np.all(blk >= 0) and np.all(blk < 1))
+                for n in range(a, b + 1):
+                    if bad:
+                        break
+                    bad = not np.array_equal(nat.src("quasirandom_kgf", n, D), blk[n - a])
+                if bad:
+                    fails.append({"input": {"call": f"<extracted> quasirandom_kgf_batch({a}, {b}, {D}) vs <extracted> quasirandom_kgf(n, {D})"}, "observed": "shape, range or batch row != single point",
+                                  "clause": "Korobov (extracted text): batch rows equal single points, all in [0,1)", "key": "src-kgf"})
+            except Exception as e:  # noqa
+                fails.append({"input": {"call": f"<extracted> quasirandom_kgf_batch({a}, {b}, {D})"}, "observed": f"{type(e).__name__}: {e}", "clause": "defined behaviour", "key": "src-kgf"})
+    if have_s or have_l:
+        ctx.add_bounded("sampling.kernels/source/native_contract", "extracted .pyx text, C semantics: Sobol single generator seeds 1..96 (D=40) and around 128/256 (D=12) against the reference; "
+                        "Korobov batch rows against single points on 5 windows (k <= 256, D <= 64)", n_eval, len(distinct), fails[:3],
+                        rule="one evaluation = one call of the extracted single generator (or one Korobov window); distinct = distinct arguments")
+
     # ---- (2) batch generator = single generator on seed windows, through the front end and the kernels
     fails, n_eval, distinct = [], 0, set()
     wins = []
-    nbig = 3 if quick else 12
-    for _ in range(6 if quick else 30):       # small starts, many dimensions (other table rows than the tests reach)
+    nbig = 3 if quick else 60
+    for _ in range(6 if quick else 150):       # small starts, many dimensions (other table rows than the tests reach)
         s = int(rng.integers(1, 5000))
         wins.append(("sobol", s, int(rng.integers(0, 257)), int(rng.choice([1, 2, 3, 10, 11, 37, 160, 999, MAXD]))))
     for _ in range(nbig):                      # large starts (single generator costs O(seed * D) per point)
         s = int(rng.integers(5000, 10 ** 6 + 1))
         wins.append(("sobol", s, int(rng.integers(0, 17)), int(rng.choice([1, 2, 3, 5, 12]))))
+    wins += [("sobol", int(rng.integers(900000, 10 ** 6 + 1)), int(rng.integers(1, 257)), MAXD) for _ in range(1 if quick else 6)]   # all table rows at large seeds
     wins += [("sobol", 10 ** 6, 8, 3), ("sobol", 1, 256, 40), ("sobol", 4095, 3, 100), ("sobol", 65535, 2, 7), ("sobol", 65536, 2, 7), ("sobol", 2, 0, MAXD)]
-    for _ in range(10 if quick else 60):
+    for _ in range(10 if quick else 300):
         wins.append(("kgf", int(rng.integers(1, 10 ** 6 + 1)), int(rng.integers(0, 257)), int(rng.integers(1, MAXD_KGF + 1))))
     wins += [("kgf", 1, 256, 64), ("kgf", 10 ** 6, 256, 1), ("kgf", 1, 0, 1)]
     for method, s, k, D in wins:
@@ -711,6 +749,9 @@ def sobol_vcs(ctx, ext, tshape, fname, nat):
     res = K.run(fname, args, pre=pre)
     for m in sorted(K.assumed_models):
         ctx.trusted.add("model:" + m)
+    ctx.trusted.update(["model:c: unsigned int arithmetic = BitVec(32); uint32 -> double conversion u2d(x) in [0, 2^32-1]; pow(2.0, 32) = 2^32",
+                        "model:numpy.empty = unconstrained array, numpy.zeros = constant-zero array, typed memoryview = the array it views",
+                        "engine:contracts/c20_decython.py (mechanical .pyx -> Python extraction), contracts/c20_hoare.py (kernel VC generator), z3"])
     if len(res) == 0:
         raise Unsupported(f"{fname}: no path reaches the return statement")
     out = []
@@ -753,6 +794,8 @@ def korobov_vcs(ctx, ext, nat):
             K2.assume(p)
         return K2.call_kernel("quasirandom_kgf", [N, D]), K2.call_kernel("quasirandom_kgf_batch", [Lo, Up, D])
     res = K.explore(thunk)
+    ctx.trusted.update(["model:libm pow = uninterpreted function of its two arguments; x % 1 = x - floor(x) (numpy) / x - trunc(x) (C fmod under cdivision)",
+                        "model:numpy broadcasting of (1,D) with (n,1) operands, np.arange(L, U+1)[r] = L + r, np.newaxis indexing"])
     if len(res) != 1:
         raise Unsupported("Korobov kernels: expected one returning path")
     pc, schemas, (r1, r2), tags = res[0]
@@ -836,5 +879,5 @@ def register_vcs(ctx, pending, vacuity=False):
             r.verdict, r.why = "error", "hypotheses unsatisfiable (vacuous VC)"
             continue
         r.smt2 = smt2
-        r.opts = {"tactic": "qfaufbv", "tactic2": "smt", "timeout_ms": 90000} if pure else {"timeout_ms": 90000}
+        r.opts = {"tactic": "qfaufbv", "tactic2": "smt", "timeout_ms": 150000} if pure else {"timeout_ms": 150000}
     ctx.notes.append(f"vacuity guard: {sum(1 for b in built if b[3] is not None)} VC hypothesis sets checked satisfiable, {vac} vacuous")
